@@ -210,6 +210,9 @@ def rebound(H, kind):
     if kind == "refresh":
         H.refresh()
         return H
+    if kind == "imul1":
+        H *= {(): 1}            # an in-place product with the constant one (clear + rebuild inside the class)
+        return H
     return {"copy": lambda: H.copy(), "add0": lambda: H + 0, "mul1": lambda: 1 * H, "ctor": lambda: type(H)(H),
             "neg": lambda: -(-H)}[kind]()
 
